@@ -78,22 +78,23 @@ theorem args_exact (cs : List CallT) (o : Occ) : o ∈ expand cs ↔ ∃ c, Sub 
 
 /-- HEADLINE (dedupe).  With deduplication on, the executed list
     (1) is a sublist of the expansion — everything that runs keeps its relative order;
-    (2) contains no two identical invocations (`Call.__eq__`);
+    (2) contains no two identical invocations (`Call.__eq__`: equal task, equal effective arguments);
     (3) contains an identical representative of every expanded invocation;
     (4) first occurrence: an invocation is skipped iff an identical one occurs earlier in the expansion
         (equivalently: has already been executed), and what ran before is unaffected by what follows. -/
-theorem dedupe_first_occurrence (l : List Occ) :
-    (dedupe l).Sublist l ∧
-    (dedupe l).Pairwise (fun a b => callEq a b = false) ∧
-    (∀ c ∈ l, ∃ d ∈ dedupe l, callEq d c = true) ∧
-    (∀ l₁ c, dedupe (l₁ ++ [c]) = if isSeen callEq c l₁ then dedupe l₁ else dedupe l₁ ++ [c]) := by
+theorem dedupe_first_occurrence (sig : Nat → List Param) (l : List Occ) :
+    (dedupe sig l).Sublist l ∧
+    (dedupe sig l).Pairwise (fun a b => callEq sig a b = false) ∧
+    (∀ c ∈ l, ∃ d ∈ dedupe sig l, callEq sig d c = true) ∧
+    (∀ l₁ c, dedupe sig (l₁ ++ [c]) =
+      if isSeen (callEq sig) c l₁ then dedupe sig l₁ else dedupe sig l₁ ++ [c]) := by
   unfold dedupe dedupeBy
-  refine ⟨dedupeFrom_sublist callEq [] l, (dedupeFrom_fresh callEq [] l).1, ?_, ?_⟩
+  refine ⟨dedupeFrom_sublist (callEq sig) [] l, (dedupeFrom_fresh (callEq sig) [] l).1, ?_, ?_⟩
   · intro c hc
-    simpa using dedupeFrom_repr callEq callEq_refl [] l c hc
+    simpa using dedupeFrom_repr (callEq sig) (callEq_refl sig) [] l c hc
   · intro l₁ c
-    have h := dedupeFrom_append callEq [] l₁ [c]
-    have hs := isSeen_dedupeFrom callEq callEq_refl (fun _ _ _ => callEq_trans) c [] l₁
+    have h := dedupeFrom_append (callEq sig) [] l₁ [c]
+    have hs := isSeen_dedupeFrom (callEq sig) (callEq_refl sig) (fun _ _ _ => callEq_trans sig) c [] l₁
     simp only [List.nil_append] at h hs
     rw [h, ← hs]
     simp only [dedupeFrom]
@@ -101,23 +102,24 @@ theorem dedupe_first_occurrence (l : List Occ) :
 
 /-- the same for "already executed": the next invocation is skipped iff it is identical to one that
     has been executed (this form holds for any comparison, also a non-transitive one) -/
-theorem dedupe_skips_iff_executed (l₁ : List Occ) (c : Occ) :
-    dedupe (l₁ ++ [c]) = if isSeen callEq c (dedupe l₁) then dedupe l₁ else dedupe l₁ ++ [c] := by
+theorem dedupe_skips_iff_executed (sig : Nat → List Param) (l₁ : List Occ) (c : Occ) :
+    dedupe sig (l₁ ++ [c]) =
+      if isSeen (callEq sig) c (dedupe sig l₁) then dedupe sig l₁ else dedupe sig l₁ ++ [c] := by
   unfold dedupe dedupeBy
-  have h := dedupeFrom_append callEq [] l₁ [c]
+  have h := dedupeFrom_append (callEq sig) [] l₁ [c]
   simp only [List.nil_append] at h
   rw [h]
   simp only [dedupeFrom]
   split <;> simp
 
 /-- with deduplication off nothing is skipped -/
-theorem nodedupe_runs_all (dflt : Option TaskT) (req : List (TaskT × KW)) :
-    (execute false dflt req).1 = expand (normalize dflt req) := by
+theorem nodedupe_runs_all (sig : Nat → List Param) (dflt : Option TaskT) (req : List (TaskT × KW)) :
+    (execute sig false dflt req).1 = expand (normalize dflt req) := by
   simp [execute, runLog]
 
 /-- with deduplication on, what runs is the deduplicated expansion of the normalised request -/
-theorem dedupe_runs (dflt : Option TaskT) (req : List (TaskT × KW)) :
-    (execute true dflt req).1 = dedupe (expand (normalize dflt req)) := by
+theorem dedupe_runs (sig : Nat → List Param) (dflt : Option TaskT) (req : List (TaskT × KW)) :
+    (execute sig true dflt req).1 = dedupe sig (expand (normalize dflt req)) := by
   simp [execute, runLog]
 
 /-- a non-empty request is taken item by item in the order given, each with exactly its kwargs and no
@@ -132,15 +134,15 @@ theorem normalize_request (dflt : Option TaskT) (r : TaskT × KW) (rs : List (Ta
 /-- HEADLINE (results).  The returned mapping has an entry for task (dictionary key) `t` iff `t` was executed, and the
     entry is the return value of the LAST execution of `t`: `j` is stored iff the `j`-th executed call
     is a call of `t` and no later one is. -/
-theorem results_last (dd : Bool) (dflt : Option TaskT) (req : List (TaskT × KW)) (t j : Nat) :
-    lookupKV t (execute dd dflt req).2 = some j ↔
-      (((execute dd dflt req).1)[j]?).map Occ.key = some t ∧
-      ∀ k, j < k → (((execute dd dflt req).1)[k]?).map Occ.key ≠ some t := by
+theorem results_last (sig : Nat → List Param) (dd : Bool) (dflt : Option TaskT) (req : List (TaskT × KW)) (t j : Nat) :
+    lookupKV t (execute sig dd dflt req).2 = some j ↔
+      (((execute sig dd dflt req).1)[j]?).map Occ.key = some t ∧
+      ∀ k, j < k → (((execute sig dd dflt req).1)[k]?).map Occ.key ≠ some t := by
   simp only [execute]
   rw [lookupKV_runResults]
-  cases hl : lastIdxFrom t 0 (runLog dd dflt req) with
+  cases hl : lastIdxFrom t 0 (runLog sig dd dflt req) with
   | some j' =>
-    have := lastIdxFrom_spec t (runLog dd dflt req) 0 j
+    have := lastIdxFrom_spec t (runLog sig dd dflt req) 0 j
     rw [hl] at this
     simp only [Nat.zero_add] at this
     rw [this]
@@ -148,49 +150,96 @@ theorem results_last (dd : Bool) (dflt : Option TaskT) (req : List (TaskT × KW)
     · rintro ⟨k, rfl, h⟩; exact h
     · intro h; exact ⟨j, rfl, h⟩
   | none =>
-    have hn := (lastIdxFrom_none t (runLog dd dflt req) 0).1 hl
+    have hn := (lastIdxFrom_none t (runLog sig dd dflt req) 0).1 hl
     simp only [lookupKV, reduceCtorEq, false_iff, not_and]
     intro hj
     exfalso
-    cases ho : (runLog dd dflt req)[j]? with
+    cases ho : (runLog sig dd dflt req)[j]? with
     | none => simp [ho] at hj
     | some x =>
       simp only [ho, Option.map_some, Option.some.injEq] at hj
       exact hn x (List.mem_of_getElem? ho) hj
 
 /-- a task that was never executed has no entry -/
-theorem results_only_executed (dd : Bool) (dflt : Option TaskT) (req : List (TaskT × KW)) (t : Nat) :
-    lookupKV t (execute dd dflt req).2 = none ↔ ∀ o ∈ (execute dd dflt req).1, o.key ≠ t := by
+theorem results_only_executed (sig : Nat → List Param) (dd : Bool) (dflt : Option TaskT) (req : List (TaskT × KW)) (t : Nat) :
+    lookupKV t (execute sig dd dflt req).2 = none ↔ ∀ o ∈ (execute sig dd dflt req).1, o.key ≠ t := by
   simp only [execute]
   rw [lookupKV_runResults]
-  cases hl : lastIdxFrom t 0 (runLog dd dflt req) with
+  cases hl : lastIdxFrom t 0 (runLog sig dd dflt req) with
   | some j' =>
-    have h := (not_congr (lastIdxFrom_none t (runLog dd dflt req) 0)).1 (by rw [hl]; simp)
+    have h := (not_congr (lastIdxFrom_none t (runLog sig dd dflt req) 0)).1 (by rw [hl]; simp)
     simp only [reduceCtorEq, false_iff]
     exact h
   | none =>
     simp only [lookupKV, true_iff]
-    exact (lastIdxFrom_none t (runLog dd dflt req) 0).1 hl
+    exact (lastIdxFrom_none t (runLog sig dd dflt req) 0).1 hl
 
-/-- "same task, same EFFECTIVE arguments" — only part of the full statement holds for the code.
-    `Call.__eq__` compares the task by name and code object and the literal `args`/`kwargs`, not the
-    arguments the body receives.  The two coincide — and then the executed list is exactly the
-    first-occurrence dedupe under "same task identity ∧ same bound arguments" — when
-    (a) distinct tasks are distinguishable by name or code (`cls` determines `id`),
-    (b) every call is well-formed for its task's signature, and
-    (c) any two calls of one task spell out the same parameters (as many positionals, the same
-        keyword names).
-    Missing for full strength: (c) — see `effective_args_dedupe_counterexample` (DESIGN §4 #22/#30) —
-    and (a) — see `task_identity_dedupe_counterexample`. -/
-theorem effective_args_dedupe_partial (sig : Nat → List Param) (l : List Occ)
+/-- HEADLINE ("same task, same EFFECTIVE arguments").  The executed list is exactly the first-occurrence
+    dedupe under "same task identity ∧ same bound arguments (defaults applied)": an explicit keyword equal
+    to the default, or a value given positionally instead of by keyword, makes no difference.
+    Hypotheses that remain, and why:
+    (a) `cls` determines `id` on the list — distinct `Task` objects are distinguishable by name or code.
+        `Task.__eq__` compares only name and code object; without (a) see
+        `task_identity_dedupe_counterexample` (known finding C04-task-eq-by-code);
+    (b) every call can be bound to its task's signature (`wellCalled`: not too many positionals, every
+        keyword names a parameter not already filled).  A call that cannot be bound has no effective
+        arguments — executing it raises `TypeError` — and the code then compares it literally.
+    The former "same spelling" hypothesis is gone (DESIGN §4 #22/#30 repaired). -/
+theorem effective_args_dedupe (sig : Nat → List Param) (l : List Occ)
     (hcls : ∀ c ∈ l, ∀ d ∈ l, (c.cls = d.cls ↔ c.id = d.id))
-    (hwc : ∀ c ∈ l, WellCalled (sig c.id) c.args)
-    (hsp : ∀ c ∈ l, ∀ d ∈ l, c.id = d.id → sameSpelling c d = true) :
-    dedupe l = dedupeBy (effEq sig) l := by
+    (hwc : ∀ c ∈ l, wellCalled (sig c.id) c.args = true) :
+    dedupe sig l = dedupeBy (effEq sig) l := by
   apply dedupeFrom_congr
   intro c hc d hd
   simp only [List.nil_append] at hc hd
-  rw [Bool.eq_iff_iff, callEq_iff]
+  rw [callEq_wellCalled sig c d (hwc c hc) (hwc d hd), effEq, Bool.eq_iff_iff]
+  simp only [Bool.and_eq_true, beq_iff_eq]
+  constructor
+  · rintro ⟨h1, h2⟩; exact ⟨(hcls c hc d hd).1 h1, h2⟩
+  · rintro ⟨h1, h2⟩; exact ⟨(hcls c hc d hd).2 h1, h2⟩
+
+/-- consequence in the property's words: with dedupe on, an invocation of the same task with the same
+    effective arguments as an earlier one in the list is skipped, every other one is kept -/
+theorem effective_args_skipped (sig : Nat → List Param) (l₁ : List Occ) (c : Occ)
+    (hcls : ∀ a ∈ l₁ ++ [c], ∀ d ∈ l₁ ++ [c], (a.cls = d.cls ↔ a.id = d.id))
+    (hwc : ∀ a ∈ l₁ ++ [c], wellCalled (sig a.id) a.args = true) :
+    dedupe sig (l₁ ++ [c]) =
+      if l₁.any (fun d => d.id == c.id && bind (sig d.id) d.args == bind (sig c.id) c.args)
+      then dedupe sig l₁ else dedupe sig l₁ ++ [c] := by
+  rw [(dedupe_first_occurrence sig (l₁ ++ [c])).2.2.2 l₁ c]
+  have : isSeen (callEq sig) c l₁ =
+      l₁.any (fun d => d.id == c.id && bind (sig d.id) d.args == bind (sig c.id) c.args) := by
+    have key : ∀ d ∈ l₁, eqvTo (callEq sig) c d =
+        (d.id == c.id && bind (sig d.id) d.args == bind (sig c.id) c.args) := by
+      intro d hd
+      have hd' : d ∈ l₁ ++ [c] := List.mem_append_left _ hd
+      have hc' : c ∈ l₁ ++ [c] := by simp
+      show callEq sig d c = _
+      rw [callEq_wellCalled sig d c (hwc d hd') (hwc c hc'), Bool.eq_iff_iff]
+      simp only [Bool.and_eq_true, beq_iff_eq]
+      constructor
+      · rintro ⟨h1, h2⟩; exact ⟨(hcls d hd' c hc').1 h1, h2⟩
+      · rintro ⟨h1, h2⟩; exact ⟨(hcls d hd' c hc').2 h1, h2⟩
+    unfold isSeen
+    rw [Bool.eq_iff_iff, List.any_eq_true, List.any_eq_true]
+    constructor
+    · rintro ⟨d, hd, h⟩; exact ⟨d, hd, by rw [← key d hd]; exact h⟩
+    · rintro ⟨d, hd, h⟩; exact ⟨d, hd, by rw [key d hd]; exact h⟩
+  rw [this]
+
+/-! ### the rule before the repair, and what is still open -/
+
+/-- the pre-repair `Call.__eq__` (literal args/kwargs) agreed with "same effective arguments" only when
+    calls of one task spelled out the same parameters -/
+theorem effective_args_dedupe_pinned_partial (sig : Nat → List Param) (l : List Occ)
+    (hcls : ∀ c ∈ l, ∀ d ∈ l, (c.cls = d.cls ↔ c.id = d.id))
+    (hwc : ∀ c ∈ l, WellCalled (sig c.id) c.args)
+    (hsp : ∀ c ∈ l, ∀ d ∈ l, c.id = d.id → sameSpelling c d = true) :
+    dedupePinned l = dedupeBy (effEq sig) l := by
+  apply dedupeFrom_congr
+  intro c hc d hd
+  simp only [List.nil_append] at hc hd
+  rw [Bool.eq_iff_iff, callEqPinned_iff]
   simp only [effEq, Bool.and_eq_true, beq_iff_eq]
   constructor
   · rintro ⟨h1, h2, h3⟩
@@ -203,21 +252,21 @@ theorem effective_args_dedupe_partial (sig : Nat → List Param) (l : List Occ)
     rw [← hid] at hb
     exact literal_eq_of_bind (sig c.id) c.args d.args (hwc c hc) hs.1.1 hs.1.2 hs.2 hb
 
-/-! ### counterexamples for the full-strength statement (behaviour of the code as it is) -/
-
-/-- DESIGN §4 #22: `inv pre main`-style: `pre(c, x=1)` invoked once with the keyword spelled out
-    (`{x: 1}`, as the CLI parser does) and once as a plain pre-task reference (`{}`): the bound arguments
-    are equal, both run. -/
+/-- DESIGN §4 #22 under the PRE-REPAIR rule: `pre(c, x=1)` invoked once with the keyword spelled out
+    (`{x: 1}`, as the CLI parser does) and once as a plain pre-task reference (`{}`): both ran; the
+    code as it is now runs it once; likewise positional vs keyword (#30) -/
 theorem effective_args_dedupe_counterexample :
     let sig : Nat → List Param := fun _ => [⟨['x'], some (.int 1)⟩]
-    let l : List Occ := [⟨0, 0, 0, ⟨[], [(['x'], .int 1)]⟩⟩, ⟨0, 0, 0, ⟨[], []⟩⟩]
-    dedupe l = l ∧ dedupeBy (effEq sig) l = [⟨0, 0, 0, ⟨[], [(['x'], .int 1)]⟩⟩] := by decide
+    let l : List Occ := [⟨0, 0, 0, ⟨[], [(['x'], .int 1)]⟩⟩, ⟨0, 0, 0, ⟨[], []⟩⟩, ⟨0, 0, 0, ⟨[.int 1], []⟩⟩]
+    dedupePinned l = l ∧ dedupeBy (effEq sig) l = [⟨0, 0, 0, ⟨[], [(['x'], .int 1)]⟩⟩] ∧
+    dedupe sig l = [⟨0, 0, 0, ⟨[], [(['x'], .int 1)]⟩⟩] := by decide
 
-/-- two different tasks that `Task.__eq__` cannot tell apart (same name, same code object — e.g. made
-    by one factory function and bound in two sub-collections): the second is skipped. -/
+/-- STILL OPEN (known finding C04-task-eq-by-code): two different tasks that `Task.__eq__` cannot tell
+    apart (same name, same code object — e.g. made by one factory function and bound in two
+    sub-collections): the second is skipped. -/
 theorem task_identity_dedupe_counterexample :
     let l : List Occ := [⟨0, 0, 7, noArgs⟩, ⟨1, 1, 7, noArgs⟩]
-    dedupe l = [⟨0, 0, 7, noArgs⟩] ∧ dedupeBy (effEq (fun _ => [])) l = l := by decide
+    dedupe (fun _ => []) l = [⟨0, 0, 7, noArgs⟩] ∧ dedupeBy (effEq (fun _ => [])) l = l := by decide
 
 /-! ### non-vacuity -/
 
@@ -227,32 +276,43 @@ def exSetup : TaskT := .mk 1 1 1 [] [(exNotify, noArgs)]
 def exClean : TaskT := .mk 3 3 3 [] []
 def exBuild : TaskT := .mk 2 2 2 [(exSetup, noArgs), (exClean, ⟨[], [(['x'], .int 1)]⟩)] [(exNotify, noArgs)]
 
-example : (execute false none [(exBuild, []), (exSetup, [])]).1.map Occ.id = [1, 0, 3, 2, 0, 1, 0] := by decide
-example : (execute true none [(exBuild, []), (exSetup, [])]).1.map Occ.id = [1, 0, 3, 2] := by decide
-example : (execute true none [(exBuild, []), (exSetup, [])]).2 = [(1, 0), (0, 1), (3, 2), (2, 3)] := by decide
-example : (execute false none [(exBuild, []), (exSetup, [])]).2 = [(1, 5), (0, 6), (3, 2), (2, 3)] := by decide
-example : (execute true (some exSetup) []).1.map Occ.id = [1, 0] := by decide
+example : (execute (fun _ => []) false none [(exBuild, []), (exSetup, [])]).1.map Occ.id = [1, 0, 3, 2, 0, 1, 0] := by decide
+example : (execute (fun _ => []) true none [(exBuild, []), (exSetup, [])]).1.map Occ.id = [1, 0, 3, 2] := by decide
+example : (execute (fun _ => []) true none [(exBuild, []), (exSetup, [])]).2 = [(1, 0), (0, 1), (3, 2), (2, 3)] := by decide
+example : (execute (fun _ => []) false none [(exBuild, []), (exSetup, [])]).2 = [(1, 5), (0, 6), (3, 2), (2, 3)] := by decide
+example : (execute (fun _ => []) true (some exSetup) []).1.map Occ.id = [1, 0] := by decide
 /-- two `Task` objects wrapping ONE body function under one name (same `key`, same `cls`) with different
     pre-tasks: each occurrence is surrounded by its OWN pre-tasks (dedupe off: everything runs; dedupe on:
     the second `build` is taken for the first - known finding - but its own pre-task still runs), and the
     returned mapping has a single entry for the shared key -/
 def exWebBuild : TaskT := .mk 10 10 10 [(.mk 11 11 11 [] [], noArgs)] []
 def exApiBuild : TaskT := .mk 20 10 10 [(.mk 21 21 21 [] [], noArgs)] []
-example : (execute false none [(exWebBuild, []), (exApiBuild, [])]).1.map Occ.id = [11, 10, 21, 20] := by decide
-example : (execute true none [(exWebBuild, []), (exApiBuild, [])]).1.map Occ.id = [11, 10, 21] := by decide
-example : (execute false none [(exWebBuild, []), (exApiBuild, [])]).2 = [(11, 0), (10, 3), (21, 2)] := by decide
+example : (execute (fun _ => []) false none [(exWebBuild, []), (exApiBuild, [])]).1.map Occ.id = [11, 10, 21, 20] := by decide
+example : (execute (fun _ => []) true none [(exWebBuild, []), (exApiBuild, [])]).1.map Occ.id = [11, 10, 21] := by decide
+example : (execute (fun _ => []) false none [(exWebBuild, []), (exApiBuild, [])]).2 = [(11, 0), (10, 3), (21, 2)] := by decide
 /-- a nested occurrence (`notify` below `setup` below `build`) satisfies `Sub` -/
 example : Sub (exNotify, noArgs) [(exBuild, noArgs)] :=
   Sub.inPre (d := (exBuild, noArgs)) (by simp) (Sub.inPost (d := (exSetup, noArgs)) (by simp [exBuild, TaskT.pre]) (Sub.here (by simp [exSetup, TaskT.post])))
-/-- kwargs are compared like dicts: the order of the keywords does not matter, the values do -/
-example : callEq ⟨0, 0, 0, ⟨[], [(['x'], .int 1), (['y'], .int 2)]⟩⟩ ⟨0, 0, 0, ⟨[], [(['y'], .int 2), (['x'], .int 1)]⟩⟩ = true := by decide
-example : callEq ⟨0, 0, 0, ⟨[], [(['x'], .int 1)]⟩⟩ ⟨0, 0, 0, ⟨[], [(['x'], .int 2)]⟩⟩ = false := by decide
-/-- the hypotheses of `effective_args_dedupe_partial` are satisfiable by a list with a real duplicate -/
+/-- effective arguments: keyword order, an explicit default and positional-vs-keyword make no difference,
+    the values do; a call that cannot be bound is compared literally -/
+def exSig : Nat → List Param := fun _ => [⟨['x'], some (.int 1)⟩, ⟨['y'], some (.int 2)⟩]
+example : callEq exSig ⟨0, 0, 0, ⟨[], [(['x'], .int 1), (['y'], .int 2)]⟩⟩ ⟨0, 0, 0, ⟨[], [(['y'], .int 2), (['x'], .int 1)]⟩⟩ = true := by decide
+example : callEq exSig ⟨0, 0, 0, ⟨[], []⟩⟩ ⟨0, 0, 0, ⟨[.int 1], [(['y'], .int 2)]⟩⟩ = true := by decide
+example : callEq exSig ⟨0, 0, 0, ⟨[], [(['x'], .int 1)]⟩⟩ ⟨0, 0, 0, ⟨[], [(['x'], .int 2)]⟩⟩ = false := by decide
+example : callEq exSig ⟨0, 0, 0, ⟨[], [(['z'], .int 1)]⟩⟩ ⟨0, 0, 0, ⟨[], []⟩⟩ = false ∧
+    callEq exSig ⟨0, 0, 0, ⟨[], [(['z'], .int 1)]⟩⟩ ⟨0, 0, 0, ⟨[], [(['z'], .int 1)]⟩⟩ = true := by decide
+/-- the hypotheses of `effective_args_dedupe` are satisfiable by a list with real duplicates under
+    different spellings -/
+example :
+    let l : List Occ := [⟨0, 0, 0, ⟨[], [(['x'], .int 1)]⟩⟩, ⟨0, 0, 0, ⟨[], [(['x'], .int 2)]⟩⟩, ⟨0, 0, 0, ⟨[.int 1], []⟩⟩, ⟨0, 0, 0, ⟨[], []⟩⟩]
+    (∀ c ∈ l, ∀ d ∈ l, (c.cls = d.cls ↔ c.id = d.id)) ∧ (∀ c ∈ l, wellCalled (exSig c.id) c.args = true) ∧
+    (dedupe exSig l).length = 2 ∧ dedupe exSig l = dedupeBy (effEq exSig) l := by decide
+/-- … and those of the pinned partial theorem -/
 example :
     let sig : Nat → List Param := fun _ => [⟨['x'], some (.int 1)⟩]
     let l : List Occ := [⟨0, 0, 0, ⟨[], [(['x'], .int 1)]⟩⟩, ⟨0, 0, 0, ⟨[], [(['x'], .int 2)]⟩⟩, ⟨0, 0, 0, ⟨[], [(['x'], .int 1)]⟩⟩]
-    (∀ c ∈ l, ∀ d ∈ l, c.id = d.id → sameSpelling c d = true) ∧ (dedupe l).length = 2 ∧
-    dedupe l = dedupeBy (effEq sig) l := by decide
+    (∀ c ∈ l, ∀ d ∈ l, c.id = d.id → sameSpelling c d = true) ∧ (dedupePinned l).length = 2 ∧
+    dedupePinned l = dedupeBy (effEq sig) l := by decide
 example : WellCalled [⟨['x'], some (.int 1)⟩] ⟨[], [(['x'], .int 1)]⟩ :=
   ⟨by simp, by intro k hk; simp [keys] at hk; exact ⟨0, by simp, by simp [hk]⟩⟩
 
